@@ -7,5 +7,7 @@ func init() {
 		func(r *Report) {
 			ruleEffect(r)
 			ruleLocks(r)
+			ruleValueBuffersImmutable(r)
+			rulePoolPutOnce(r)
 		})
 }
